@@ -67,6 +67,9 @@ pub struct Case {
     pub var: u8,
     /// 0 inside arena with red zones, 1 end at guard page, 2 start at guard page
     pub place: u8,
+    /// placement cross product (place.rs): placement code of operand 1 / operand 2, -1 = not used
+    pub pl1: i8,
+    pub pl2: i8,
 }
 impl Case {
     pub const ZERO: Case = Case {
@@ -78,6 +81,8 @@ impl Case {
         aux: 0,
         var: 0,
         place: 0,
+        pl1: -1,
+        pl2: -1,
     };
 }
 
@@ -86,12 +91,12 @@ pub static mut CURRENT: Case = Case::ZERO;
 pub static mut IN_CALL: bool = false;
 
 #[inline(always)]
-unsafe fn enter(c: &Case) {
+pub unsafe fn enter(c: &Case) {
     wv(addr_of_mut!(CURRENT), *c);
     wv(addr_of_mut!(IN_CALL), true);
 }
 #[inline(always)]
-unsafe fn leave() {
+pub unsafe fn leave() {
     wv(addr_of_mut!(IN_CALL), false);
 }
 pub fn current() -> (Case, bool) {
@@ -157,7 +162,7 @@ impl W {
         if c.f != F_MEMSET {
             self.s(",\"src_mis\":").u(c.smis as u64);
         }
-        if (c.f == F_MEMMOVE || c.f == F_MEMCPY) && c.place == 0 {
+        if (c.f == F_MEMMOVE || c.f == F_MEMCPY) && c.place == 0 && c.pl1 < 0 {
             if c.dist != 0 {
                 self.s(",\"buffers\":\"one\",\"dst_minus_src\":").i(c.dist as i64);
             } else {
@@ -173,12 +178,34 @@ impl W {
             self.s(",\"first_diff\":").i(c.aux).s(",\"relation\":\"");
             self.s(["equal", "a<b", "a>b"][c.var as usize]).s("\"");
         }
+        if c.pl1 >= 0 {
+            let names = if c.f == F_MEMCMP || c.f == F_BCMP { ["s1", "s2"] } else { ["dst", "src"] };
+            self.s(",\"").s(names[0]).s("\":\"");
+            pl_describe(c.pl1 as u8, self);
+            if c.pl2 >= 0 {
+                self.s("\",\"").s(names[1]).s("\":\"");
+                pl_describe(c.pl2 as u8, self);
+            }
+            return self.s("\"");
+        }
         self.s(",\"placement\":\"");
         self.s(["red-zones", "ends-at-guard-page", "starts-at-guard-page"][c.place as usize]);
         self.s("\"")
     }
     pub fn bytes(&self) -> &[u8] {
         &self.b[..self.n]
+    }
+}
+
+/// placement codes of place.rs: 0..8 = ends k bytes before an inaccessible page, 8..16 = starts
+/// k bytes after one, 16..32 = interior with misalignment m
+pub fn pl_describe(pl: u8, w: &mut W) {
+    if pl < 8 {
+        w.s("ends ").u(u64::from(pl)).s(" bytes before an inaccessible page");
+    } else if pl < 16 {
+        w.s("starts ").u(u64::from(pl - 8)).s(" bytes after an inaccessible page");
+    } else {
+        w.s("interior, address % 16 = ").u(u64::from(pl - 16));
     }
 }
 
